@@ -5,7 +5,7 @@
    C01's decoder applied to C01's encoding of tree_of s returns exactly tree_of s. *)
 From Coq Require Import String Ascii.
 From V.lib Require Import Base.
-From V.c01 Require Import C01Codec C01Model.
+From V.c19 Require Import C19BoxCodec C19BoxModel.
 From V.c19 Require Import C19Model C19Spec C19InvProofs C19RecModel C19RecProofs C19TreeModel C19TreeProofs
   C19LeafProofs C19PrintParseProofs C19LeafPPProofs.
 
@@ -101,10 +101,10 @@ Proof.
                   /\ ar_profile r = ac_profile a /\ ar_compat r = ac_compat a /\ ar_level r = ac_level a
                   /\ ar_sps r = ac_sps a /\ ar_pps r = ac_pps a).
     { subst r. unfold avcrec_canon, avcrec_of, avcc_fields_ok. cbn [ar_profile ar_notrail].
-      change (C01Model.avc_plain (ac_profile a)) with (C19RecModel.avc_plain (ac_profile a)).
+      change (C19BoxModel.avc_plain (ac_profile a)) with (C19RecModel.avc_plain (ac_profile a)).
       destruct (C19RecModel.avc_plain (ac_profile a)) eqn:Epl;
         cbn [ar_profile ar_compat ar_level ar_sps ar_pps ar_chroma ar_bdl ar_bdc ar_nspsext ar_notrail];
-        change (C01Model.avc_plain (ac_profile a)) with (C19RecModel.avc_plain (ac_profile a)); rewrite Epl; tauto. }
+        change (C19BoxModel.avc_plain (ac_profile a)) with (C19RecModel.avc_plain (ac_profile a)); rewrite Epl; tauto. }
     destruct Hok as (Hok & E1 & E2 & E3 & E4 & E5).
     apply lpp_avcC; try assumption; rewrite ?E1, ?E2, ?E3, ?E4, ?E5; try assumption; apply nalus16_forall; assumption.
 Qed.
@@ -312,15 +312,15 @@ Qed.
 
 (* ------------------------------------------------------------------ moov: the invariant order is stable *)
 Lemma lti_snoc {A} (f : A -> bool) acc x : forall i a, f x = true ->
-  C01Model.last_trak_idx f (acc ++ [x]) i a = (i + length acc)%nat.
+  C19BoxModel.last_trak_idx f (acc ++ [x]) i a = (i + length acc)%nat.
 Proof.
-  induction acc as [|y acc IH]; intros i a Hx; cbn [app C01Model.last_trak_idx length].
+  induction acc as [|y acc IH]; intros i a Hx; cbn [app C19BoxModel.last_trak_idx length].
   - rewrite Hx. lia.
   - rewrite IH by exact Hx. lia.
 Qed.
 
 Lemma stable_inv {A} (f : A -> bool) ts : forall acc,
-  (C01Model.last_trak_idx f acc 0 0 = 0 \/ C01Model.last_trak_idx f acc 0 0 = length acc - 1)%nat ->
+  (C19BoxModel.last_trak_idx f acc 0 0 = 0 \/ C19BoxModel.last_trak_idx f acc 0 0 = length acc - 1)%nat ->
   Forall (fun c => f c = true) ts -> moov_stable_from f acc ts = true.
 Proof.
   induction ts as [|c ts IH]; intros acc Hk Hall; [reflexivity|]. inversion Hall; subst.
